@@ -211,3 +211,100 @@ void drv_k4_fftmod(int tier, unsigned long seed, const char *extra) {
       fn_begin("mpir_revbin"); fn_in_int("v", v); fn_in_int("bits", bits); fn_mid(); fn_out_int("r", (long)mpir_revbin((mp_limb_t)v, (mp_limb_t)bits)); fn_end(); }
   }
 }
+
+/* ------------------------------------------------------------------ k4_toom */
+/* The Toom routines and mpn_mul_fft_main entered directly, on the shapes for which mpn_mul / mpn_mul_n / mpn_sqr (mpn/generic/mul.c, mul_n.c) select them
+   (the selection below repeats mul.c line by line), with exactly the scratch the dispatcher allocates, on operands built from PIECES of the size the
+   routine splits at: all-ones / zero pieces, single top bit, pieces making the evaluation at -1 / -2 zero, just positive, just negative. */
+enum { TM_NONE, TM_TOOM3, TM_TOOM32, TM_TOOM42, TM_TOOM4, TM_TOOM53, TM_TOOM8H, TM_FFT };
+static int mul_label(mp_size_t un, mp_size_t vn, int *parts) {       /* un > vn: the unbalanced part of mpn_mul */
+  mp_size_t k, l;
+  if (vn < MUL_KARATSUBA_THRESHOLD) return TM_NONE;
+  if (ABOVE_THRESHOLD(un + vn, 2 * MUL_FFT_FULL_THRESHOLD) && ABOVE_THRESHOLD(3 * vn, MUL_FFT_FULL_THRESHOLD)) { *parts = 8; return TM_FFT; }
+  k = (un + 3) / 4;
+  if (ABOVE_THRESHOLD(un + vn, 2 * MUL_TOOM8H_THRESHOLD) && vn >= 86 && 4 * un <= 13 * vn) { *parts = 8; return TM_TOOM8H; }
+  if (ABOVE_THRESHOLD(un + vn, 2 * MUL_TOOM4_THRESHOLD)) {
+    if (vn > 3 * k) { *parts = 4; return TM_TOOM4; }
+    l = (un + 4) / 5;
+    if ((((vn > 9 * k / 4) && (un + vn <= 6 * MUL_TOOM4_THRESHOLD)) || ((vn > 2 * l) && (un + vn > 6 * MUL_TOOM4_THRESHOLD))) && (vn <= 3 * l)) { *parts = 5; return TM_TOOM53; }
+  }
+  if (ABOVE_THRESHOLD(un + vn, 2 * MUL_TOOM3_THRESHOLD) && vn > k) {
+    if (vn < 2 * k) { *parts = 4; return TM_TOOM42; }
+    l = (un + 2) / 3; *parts = 3;
+    return vn > 2 * l ? TM_TOOM3 : TM_TOOM32;
+  }
+  return TM_NONE;
+}
+static void toom_fill(mp_ptr x, mp_size_t xn, int parts, int kind, int adv) {
+  mp_size_t ps = (xn + parts - 1) / parts, i; int k = (int)((xn - 1) / ps); mp_size_t hn = xn - k * ps;      /* pieces 0..k-1 of ps limbs, top piece hn limbs */
+  rnd_limbs(x, xn, kind);
+  switch (adv) {
+  case 1: for (i = 0; i < xn; i++) x[i] = ~(mp_limb_t)0; break;
+  case 2: { int j; for (j = 0; j <= k; j++) if (rnd_below(2)) for (i = 0; i < (j < k ? ps : hn); i++) x[j * ps + i] = 0; } break;
+  case 3: for (i = 0; i < xn; i++) x[i] = 0; x[xn - 1] = (mp_limb_t)1 << 63; break;
+  case 4: case 5: case 6: if (k >= 1) { pieces_zero_at_minus(x, k, ps, hn, 0, 0); if (adv == 5) x[0] += 1; if (adv == 6) x[ps] += 1; } break;     /* X(-1) = 0, +1, -1 */
+  case 7: case 8: if (k >= 1) { pieces_zero_at_minus(x, k, ps, hn, 1, 0); if (adv == 8) x[ps] += 1; } break;                                   /* X(-2) = 0, negative */
+  case 9: if (k >= 1) pieces_zero_at_minus(x, k, ps, hn, 1, 1); break;                                                                         /* X(-1/2) = 0 */
+  default: break; }
+}
+static void ev_toom_mul(int lab, mp_size_t un, mp_size_t vn, int parts, int kind, int adv, int place) {
+  mp_ptr a = gb_get(0, un, place), b = gb_get(1, vn, !place), r = gb_get(2, un + vn, place), ws = NULL; const char *f; mp_size_t wn = 0;
+  toom_fill(a, un, parts, kind, adv); toom_fill(b, vn, un == vn ? parts : (int)((vn + (un + parts - 1) / parts - 1) / ((un + parts - 1) / parts)), (kind + 3) % NKINDS, adv == 0 ? 0 : 1 + (adv + kind) % 9);
+  if (adv == 10) MPN_COPY(b, a, vn);                                               /* equal contents, distinct pointers */
+  switch (lab) {
+  case TM_TOOM3: f = "mpn_toom3_mul"; wn = MPN_TOOM3_MUL_TSIZE(un); break;     case TM_TOOM32: f = "mpn_toom32_mul"; wn = MPN_TOOM3_MUL_TSIZE(un); break;
+  case TM_TOOM42: f = "mpn_toom42_mul"; wn = MPN_TOOM3_MUL_TSIZE(un); break;   case TM_TOOM4: f = "mpn_toom4_mul"; break;
+  case TM_TOOM53: f = "mpn_toom53_mul"; break;                                   case TM_TOOM8H: f = "mpn_toom8h_mul"; break;
+  default: f = "mpn_mul_fft_main"; break; }
+  if (wn) { ws = gb_get(3, wn, 1); gb_fill(ws, wn); }
+  fn_begin(f); fn_in_limbs("a", a, un); fn_in_int("an", un); fn_in_limbs("b", b, vn); fn_in_int("bn", vn); fn_mid(); gb_fill(r, un + vn);
+  switch (lab) {
+  case TM_TOOM3: mpn_toom3_mul(r, a, un, b, vn, ws); break;   case TM_TOOM32: mpn_toom32_mul(r, a, un, b, vn, ws); break;
+  case TM_TOOM42: mpn_toom42_mul(r, a, un, b, vn, ws); break; case TM_TOOM4: mpn_toom4_mul(r, a, un, b, vn); break;
+  case TM_TOOM53: mpn_toom53_mul(r, a, un, b, vn); break;     case TM_TOOM8H: mpn_toom8h_mul(r, a, un, b, vn); break;
+  default: mpn_mul_fft_main(r, a, un, b, vn); break; }
+  fn_out_limbs("r", r, un + vn); fn_end();
+}
+/* balanced forms: which = 0 mul_n route, 1 sqr route */
+static void ev_toom_n(int sqr, mp_size_t n, int kind, int adv, int place) {
+  mp_ptr a = gb_get(0, n, place), b = gb_get(1, n, !place), r = gb_get(2, 2 * n, place), ws = NULL; const char *f; int parts, which; mp_size_t wn = 0;
+  if (!sqr) { if (n < MUL_TOOM3_THRESHOLD) return; which = n < MUL_TOOM4_THRESHOLD ? 0 : n < MUL_TOOM8H_THRESHOLD ? 1 : n < MUL_FFT_FULL_THRESHOLD ? 2 : 3; }
+  else { if (n < SQR_TOOM3_THRESHOLD) return; which = n < SQR_TOOM4_THRESHOLD ? 0 : n < SQR_TOOM8_THRESHOLD ? 1 : n < SQR_FFT_FULL_THRESHOLD ? 2 : 3; }
+  parts = which == 0 ? 3 : which == 1 ? 4 : 8;
+  toom_fill(a, n, parts, kind, adv); toom_fill(b, n, parts, (kind + 3) % NKINDS, adv == 0 ? 0 : 1 + (adv + kind) % 9); if (sqr) MPN_COPY(b, a, n);
+  f = sqr ? (which == 0 ? "mpn_toom3_sqr_n" : which == 1 ? "mpn_toom4_sqr_n" : which == 2 ? "mpn_toom8_sqr_n" : "mpn_mul_fft_main")
+          : (which == 0 ? "mpn_toom3_mul_n" : which == 1 ? "mpn_toom4_mul_n" : which == 2 ? "mpn_toom8h_mul" : "mpn_mul_fft_main");
+  if (which == 0) { wn = sqr ? MPN_TOOM3_SQR_N_TSIZE(n) : MPN_TOOM3_MUL_N_TSIZE(n); ws = gb_get(3, wn, 1); gb_fill(ws, wn); }
+  fn_begin(f); fn_in_limbs("a", a, n); fn_in_int("an", n); fn_in_limbs("b", sqr ? a : b, n); fn_in_int("bn", n); fn_mid(); gb_fill(r, 2 * n);
+  if (sqr) { if (which == 0) mpn_toom3_sqr_n(r, a, n, ws); else if (which == 1) mpn_toom4_sqr_n(r, a, n); else if (which == 2) mpn_toom8_sqr_n(r, a, n); else mpn_mul_fft_main(r, a, n, a, n); }
+  else { if (which == 0) mpn_toom3_mul_n(r, a, b, n, ws); else if (which == 1) mpn_toom4_mul_n(r, a, b, n); else if (which == 2) mpn_toom8h_mul(r, a, n, b, n); else mpn_mul_fft_main(r, a, n, b, n); }
+  fn_out_limbs("r", r, 2 * n); fn_end();
+}
+void drv_k4_toom(int tier, unsigned long seed, const char *extra) {
+  shard_t sh = shard_parse(extra); long x = 0; int i, j, adv, sq;
+  const int T3 = MUL_TOOM3_THRESHOLD, T4 = MUL_TOOM4_THRESHOLD, T8 = MUL_TOOM8H_THRESHOLD, TF = MUL_FFT_FULL_THRESHOLD, S3 = SQR_TOOM3_THRESHOLD, S4 = SQR_TOOM4_THRESHOLD, S8 = SQR_TOOM8_THRESHOLD, SF = SQR_FFT_FULL_THRESHOLD;
+  int nb[40], nnb = 0;
+  if (sh.pure) return;
+  nb[nnb++] = T3; nb[nnb++] = T3 + 1; nb[nnb++] = T3 + 2; nb[nnb++] = (T3 + T4) / 2; nb[nnb++] = T4 - 1; nb[nnb++] = T4; nb[nnb++] = T4 + 1; nb[nnb++] = T4 + 3; nb[nnb++] = (T4 + T8) / 2; nb[nnb++] = T8 - 1;
+  nb[nnb++] = T8; nb[nnb++] = T8 + 1; nb[nnb++] = T8 + 7; nb[nnb++] = 2 * T8 + 3; nb[nnb++] = 1000; nb[nnb++] = TF - 1; nb[nnb++] = TF; nb[nnb++] = TF + 1;
+  nb[nnb++] = S3; nb[nnb++] = S3 + 1; nb[nnb++] = S4 - 1; nb[nnb++] = S4; nb[nnb++] = S4 + 2; nb[nnb++] = S8 - 1; nb[nnb++] = S8; nb[nnb++] = S8 + 5; nb[nnb++] = SF - 1; nb[nnb++] = SF; nb[nnb++] = SF + 1;
+  if (tier) { nb[nnb++] = T3 + 17; nb[nnb++] = T4 + 31; nb[nnb++] = 3 * T8; nb[nnb++] = 2 * TF; nb[nnb++] = S8 + 100; nb[nnb++] = 2 * SF + 1; }
+  for (i = 0; i < nnb; i++) for (sq = 0; sq < 2; sq++) {
+    mp_size_t n = nb[i];
+    x++; if (!MINE(sh, x)) continue;
+    rec_reset("k4_toom", x, seed);
+    for (adv = 0; adv <= 10; adv++) { if (n > 1200 && adv != 0 && adv != 1 && adv != 4 + (i % 3) && adv != 7) continue; if (!tier && n > 300 && (adv == 2 || adv == 3 || adv == 9)) continue;
+      ev_toom_n(sq, n, (i + adv) % NKINDS, adv, adv & 1); }
+  }
+  /* unbalanced shapes: un over a list, vn at the fractions where mul.c changes algorithm */
+  { static const int uns[] = {110, 131, 150, 180, 200, 257, 300, 399, 520, 700, 1100, 4000, 5000}; static const int num[] = {26, 30, 34, 40, 45, 50, 56, 60, 67, 70, 75, 80, 90, 97}; /* vn = un * num / 100 */
+    for (i = 0; i < (tier ? 13 : 12); i++) for (j = 0; j < 14; j++) {
+      mp_size_t un = uns[i], vn = (mp_size_t)uns[i] * num[j] / 100; int parts = 3, lab = mul_label(un, vn, &parts);
+      if (lab == TM_NONE) continue;
+      x++; if (!MINE(sh, x)) continue;
+      rec_reset("k4_toom", x, seed);
+      for (adv = 0; adv <= 10; adv++) { if (!tier && adv != 0 && adv != 1 && adv != 2 + (i + j) % 9 && adv != 2 + (i + 2 * j + 4) % 9) continue; if (un > 1200 && adv > 1 && adv != 4 && adv != 7) continue;
+        ev_toom_mul(lab, un, vn, parts, (i + j + adv) % NKINDS, adv, adv & 1); }
+    }
+  }
+}
